@@ -99,6 +99,8 @@ def check(ctx: Ctx, col: Collector, tier: str) -> None:
     repo = ctx.repo
     col.spec("C03.CHILD-KINDS", "nothing public is dropped: the walker descends into every declaration-bearing statement class at each container level",
              "abstract interpretation of the walker's child selection over all statement classes of the library model", floor=9)
+    col.spec("C03.FILE-SKIP", "every analysed module that declares something reaches the generator: no module is skipped on a criterion that says nothing about its declarations",
+             "per-iteration effects of the module loop of generate_stub_data over module kinds", floor=2)
     col.spec("C03.UNWRAP", "wrapped definitions (decorated, overloaded) reach a handler", "class sets of Decorator.func / OverloadedFuncDef.impl against the reflective dispatch", floor=3)
     col.spec("C03.REGISTER", "every visited declaration is added to the API store and to its owner, for every parent kind the walker can produce",
              "stack-shape analysis + path analysis of the leave_* handlers", floor=8)
@@ -135,6 +137,26 @@ def check(ctx: Ctx, col: Collector, tier: str) -> None:
                     f"definitions nested in {', '.join(missing[:3])}… at {cont.lower()} level (e.g. `if X: def f(): ...`, `try: class C: ...`) are not visited and vanish from the stubs")
         else:
             col.ok("C03.CHILD-KINDS", key, repo.loc(WALKER, wfi.node), "compound statements are searched for definitions")
+
+    # ------------------------------------------------------------------ FILE-SKIP
+    gsfi = repo.function(GENSTUBS, "generate_stub_data")
+    col.touched(gsfi)
+    git_ = ctx.interp(gsfi)
+    git_.run_function(gsfi, {"stubs_generator": Sym("stubs_generator"), "out_path": Sym("out_path")})
+    mloops = find_loops(git_, gsfi, lambda v: "modules" in repr(v))
+    if len(mloops) != 1:
+        raise AnalysisError("module loop of generate_stub_data not found")
+    mnode, _, _, mentry = mloops[0]
+    for mname, what in (("__init__", "a package's __init__.py"), ("mod", "an ordinary module")):
+        mod = Obj("Module", (("name", Const(mname)), ("id", Sym("M.id")), ("classes", Sym("M.classes")), ("global_functions", Sym("M.global_functions")), ("enums", Sym("M.enums"))))
+        outs = run_body(git_, mnode, mentry.clone(), mod)
+        generated = [o for o in outs if any(e.kind == "call" and e.target in ("stubs_generator", "<<stubs_generator>>") and e.args and e.args[0] == mod for e in new_effects(o, mentry))]
+        key = f"{GENSTUBS}::generate_stub_data::module-kind::{mname}"
+        if generated:
+            col.ok("C03.FILE-SKIP", key, repo.loc(GENSTUBS, mnode), f"{what} is handed to the generator on {len(generated)} of {len(outs)} paths")
+        else:
+            col.bad("C03.FILE-SKIP", key, repo.loc(GENSTUBS, mnode), f"{len(outs)} paths, none calls the generator for a module named {mname!r}",
+                    f"{what} is skipped before the generator sees it: functions, classes and attributes that are written directly in it appear in no stub")
 
     # ------------------------------------------------------------------ UNWRAP
     handlers = {}
